@@ -29,16 +29,15 @@ WRAP = {'pubo': (False, 'pubo_value'), 'qubo': (False, 'qubo_value'),
         'puso': (True, 'puso_value'), 'quso': (True, 'quso_value')}
 
 
-def best_update_rules(ctx, rid, fn, loop, all_flag, cand, best_name):
+def best_update_rules(ctx, rid, fn, loop, all_flag, cand, inc):
     """Orientation of `best = cand, x` updates inside loop: strict for the
     single-solution form, non-strict for all-solutions; None guard."""
     g = cfg_of(fn.node)
     n = 0
     for st in ast.walk(loop):
-        if not (isinstance(st, ast.Assign) and any(is_name(t, best_name) for t in st.targets)):
+        if not inc.is_update(st, cand):
             continue
-        if not (isinstance(st.value, ast.Tuple) and st.value.elts and src(st.value.elts[0]) == cand):
-            continue
+        BV = inc.value
         n += 1
         facts, tests = [], []
         for t, pol, o in g.edge_dominators(st):
@@ -54,14 +53,13 @@ def best_update_rules(ctx, rid, fn, loop, all_flag, cand, best_name):
             for c in ast.walk(t):
                 if isinstance(c, ast.Compare) and len(c.ops) == 1:
                     o = orient(norm_compare(c), cand)
-                    if o and o[1] == '%s[0]' % best_name:
+                    if o and o[1] == BV:
                         op = o[0]
-                        guard_none = nullness.local_guard(c.comparators[0] if src(c.comparators[0]) == '%s[0]' % best_name else c.left,
-                                                          '%s[0]' % best_name) or \
+                        guard_none = nullness.local_guard(c.comparators[0] if src(c.comparators[0]) == BV else c.left, BV) or \
                             any(isinstance(b, ast.BoolOp) and isinstance(b.op, ast.Or) and
-                                any(src(v) == '%s[0] is None' % best_name for v in b.values) for b in ast.walk(t))
+                                any(src(v) in ('%s is None' % BV, 'None is %s' % BV) for v in b.values) for b in ast.walk(t))
         if op is None:
-            ctx.inst(rid, fn, st, False, "best-update is not guarded by a comparison of %s with %s[0]" % (cand, best_name))
+            ctx.inst(rid, fn, st, False, "best-update is not guarded by a comparison of %s with %s" % (cand, BV))
             continue
         if allmode and not single:
             ok = op == '<='
@@ -74,17 +72,38 @@ def best_update_rules(ctx, rid, fn, loop, all_flag, cand, best_name):
         ctx.inst(rid, fn, st, ok, msg)
         ctx.inst(rid, fn, 'None guard of ' + src(st)[:30], guard_none,
                  "incumbent None is guarded" if guard_none else
-                 "comparison with %s[0] is not guarded against the initial None incumbent" % best_name)
+                 "comparison with %s is not guarded against the initial None incumbent" % BV)
     return n
 
 
-def incumbent_name(loop, cand):
-    """Name of the incumbent pair: assigned `(cand, x)` inside the enumeration loop."""
-    for st in ast.walk(loop):
-        if isinstance(st, ast.Assign) and len(st.targets) == 1 and isinstance(st.targets[0], ast.Name) and \
-                isinstance(st.value, ast.Tuple) and len(st.value.elts) == 2 and src(st.value.elts[0]) == cand:
-            return st.targets[0].id
-    return None
+class Incumbent:
+    """The incumbent of the search: one local holding the pair (value, assignment) - value read as NAME[0] - or two
+    locals assigned together from (cand, x)."""
+    def __init__(self, loop, cand):
+        self.form = None
+        for st in ast.walk(loop):
+            if not (isinstance(st, ast.Assign) and len(st.targets) == 1 and isinstance(st.value, ast.Tuple)
+                    and len(st.value.elts) == 2 and src(st.value.elts[0]) == cand):
+                continue
+            t = st.targets[0]
+            if isinstance(t, ast.Name):
+                self.form, self.name, self.value, self.sol = 'pair', t.id, '%s[0]' % t.id, '%s[1]' % t.id
+                return
+            if isinstance(t, ast.Tuple) and len(t.elts) == 2 and all(isinstance(e, ast.Name) for e in t.elts):
+                self.form, self.name, self.value, self.sol = 'split', None, t.elts[0].id, t.elts[1].id
+                return
+
+    def is_update(self, st, cand=None):
+        if not (isinstance(st, ast.Assign) and len(st.targets) == 1):
+            return False
+        t = st.targets[0]
+        if self.form == 'pair':
+            ok = is_name(t, self.name)
+        else:
+            ok = isinstance(t, ast.Tuple) and len(t.elts) == 2 and is_name(t.elts[0], self.value) and is_name(t.elts[1], self.sol)
+        if ok and cand is not None:
+            ok = isinstance(st.value, ast.Tuple) and bool(st.value.elts) and src(st.value.elts[0]) == cand
+        return ok
 
 
 def rules(ctx):
@@ -241,11 +260,11 @@ def rules(ctx):
             cand = v.targets[0].id
     if cand is None:
         raise AnalysisError("_solve_bruteforce: candidate value variable (v = value(x, D)) not found")
-    BEST = incumbent_name(loop, cand)
-    if BEST is None:
+    INC = Incumbent(loop, cand)
+    if INC.form is None:
         ctx.inst('R09.4', sb, loop, False, "no incumbent is updated with (value, assignment) inside the enumeration loop")
-        BEST = 'best'
-    updates = [n for n in ast.walk(loop) if isinstance(n, ast.Assign) and any(is_name(t, BEST) for t in n.targets)]
+        INC.form, INC.name, INC.value, INC.sol = 'pair', 'best', 'best[0]', 'best[1]'
+    updates = [n for n in ast.walk(loop) if INC.is_update(n)]
     okf = bool(vcalls) and bool(updates)
     for n in vcalls + updates:
         facts = []
@@ -263,7 +282,7 @@ def rules(ctx):
              "objective is not computed as value(x, D)")
 
     # ---------------------------------------------------------------- R09.4
-    n_up = best_update_rules(ctx, 'R09.4', sb, loop, allp, cand, BEST)
+    n_up = best_update_rules(ctx, 'R09.4', sb, loop, allp, cand, INC)
     if n_up < 2:
         ctx.inst('R09.4', sb, 'best updates', False, "fewer than two best-updates (single / all-solutions) found")
     # collection keyed by the value, read at the final best value
@@ -275,17 +294,41 @@ def rules(ctx):
     okfin = False
     for n in fin:
         for s_ in n.body:
-            if isinstance(s_, ast.Assign) and isinstance(s_.value, ast.Tuple) and len(s_.value.elts) == 2:
+            if not isinstance(s_, ast.Assign):
+                continue
+            if INC.form == 'pair' and isinstance(s_.value, ast.Tuple) and len(s_.value.elts) == 2 and is_name(s_.targets[0], INC.name):
                 e0, e1 = s_.value.elts
-                if src(e0) == '%s[0]' % BEST and isinstance(e1, ast.Subscript) and src(e1.slice) == '%s[0]' % BEST:
+                if src(e0) == INC.value and isinstance(e1, ast.Subscript) and src(e1.slice) == INC.value:
                     okfin = True
+            if INC.form == 'split' and is_name(s_.targets[0], INC.sol) and isinstance(s_.value, ast.Subscript) \
+                    and src(s_.value.slice) == INC.value:
+                okfin = True
     ctx.inst('R09.4', sb, fin[0] if fin else 'final selection', okfin,
              "all-solutions result is the collection stored under the final best value" if okfin else
              "the all-solutions result is not read at the final best value")
+    # what is returned after the enumeration is the incumbent
+    after = [n for n in g.stmts() if isinstance(n, ast.Return) and g.reaches(loop, n)]
+    okret = bool(after) and all(
+        (INC.form == 'pair' and is_name(r.value, INC.name)) or
+        (isinstance(r.value, ast.Tuple) and len(r.value.elts) == 2 and src(r.value.elts[0]) == INC.value
+         and src(r.value.elts[1]) == INC.sol) for r in after)
+    ctx.inst('R09.4', sb, after[0] if after else 'return', okret,
+             "the incumbent (value, assignment) is returned" if okret else
+             "what is returned after the enumeration is not the incumbent pair")
     # initial incumbent is None (no-valid-assignment => objective None)
-    inits = [v for s_, v in assignments_to(sb.node, BEST) if isinstance(v, ast.Tuple) and not any(x is s_ for x in ast.walk(loop))
-             and not any(x is s_ for n in fin for x in ast.walk(n))]
-    oki = bool(inits) and all(is_const(v.elts[0], None) for v in inits)
+    inits = []
+    for s_ in g.stmts():
+        if not isinstance(s_, ast.Assign) or any(x is s_ for x in ast.walk(loop)) or any(x is s_ for n in fin for x in ast.walk(n)):
+            continue
+        t = s_.targets[0]
+        if INC.form == 'pair' and is_name(t, INC.name) and isinstance(s_.value, ast.Tuple) and s_.value.elts:
+            inits.append(s_.value.elts[0])
+        elif INC.form == 'split':
+            if is_name(t, INC.value):
+                inits.append(s_.value)
+            elif isinstance(t, ast.Tuple) and isinstance(s_.value, ast.Tuple) and len(t.elts) == len(s_.value.elts):
+                inits += [v for a, v in zip(t.elts, s_.value.elts) if is_name(a, INC.value)]
+    oki = bool(inits) and all(is_const(v, None) for v in inits)
     ctx.inst('R09.4', sb, 'best = None, {}', oki, "no valid assignment => objective None" if oki else
              "the incumbent does not start as None: `no assignment is valid` is not reported as None")
 
@@ -296,22 +339,40 @@ def rules(ctx):
     # ---------------------------------------------------------------- R09.6
     rets = [n for n in g.stmts() if isinstance(n, ast.Return) and not g.reaches(loop, n)]
     empty_ok = const_ok = False
+
+    def emptiness_point(r):
+        """The statement at which `not D` was evaluated on the way to r: the test itself, or the single assignment of
+        a flag `f = not D` that the test reads."""
+        for t, pol, o in g.edge_dominators(r):
+            atoms = compare_atoms(t, pol)
+            if ('falsy', D) in atoms:
+                return o
+            for a in atoms:
+                if len(a) == 2 and a[0] == 'truthy' and a[1].isidentifier():
+                    defs = [(s_, v_) for s_, v_ in assignments_to(sb.node, a[1]) if isinstance(v_, ast.AST)]
+                    if len(defs) == 1 and ('falsy', D) in compare_atoms(defs[0][1], True) and g.dominates([defs[0][0]], r):
+                        return defs[0][0]
+        return None
+
+    restores = [n for n in g.stmts() if isinstance(n, ast.Assign) and isinstance(n.targets[0], ast.Subscript)
+                and is_name(n.targets[0].value, D)]
     for r in rets:
         v = r.value
         if not (isinstance(v, ast.Tuple) and len(v.elts) == 2):
             continue
         shape = src(v.elts[1]) in ('{} if not %s else [{}]' % allp, '[{}] if %s else {}' % allp)
-        facts = []
-        for t, pol, o in g.edge_dominators(r):
-            facts += compare_atoms(t, pol)
+        pt = emptiness_point(r)
+        if pt is None or not shape:
+            continue
         popped = [n for n in g.stmts() if isinstance(n, ast.Assign) and any(call_name(c) == 'pop' for c in calls_in(n))
-                  and g.dominates([n], r)]
-        if ('falsy', D) in facts and shape:
-            if popped:
-                var = src(popped[0].targets[0])
-                const_ok = const_ok or src(v.elts[0]) == var
-            else:
-                empty_ok = empty_ok or const_num(v.elts[0]) == 0
+                  and g.dominates([n], pt)]
+        if popped:
+            # the emptiness was looked at while the offset was out: no re-insert between the pop and that point
+            out = pt in g.reachable(popped[0], avoid=set(restores)) or pt is popped[0]
+            var = src(popped[0].targets[0])
+            const_ok = const_ok or (src(v.elts[0]) == var and out)
+        else:
+            empty_ok = empty_ok or const_num(v.elts[0]) == 0
     ctx.inst('R09.6', sb, 'empty model', empty_ok,
              "`not D` returns (0, {} / [{}]) before enumeration" if empty_ok else
              "an empty model is not answered with (0, {}) / (0, [{}]) from a `not D` test before the enumeration")
@@ -354,14 +415,17 @@ def rules(ctx):
     js = P.func('JobSequencing.solve_bruteforce')
     loops = [n for n in walk_no_nested(strip_docstring(js.node.body)) if isinstance(n, ast.For)]
     if loops:
-        jcand, jbest = None, None
+        jcand = None
         for st in ast.walk(loops[0]):
-            if isinstance(st, ast.Assign) and len(st.targets) == 1 and isinstance(st.targets[0], ast.Name) and \
+            if isinstance(st, ast.Assign) and len(st.targets) == 1 and isinstance(st.targets[0], (ast.Name, ast.Tuple)) and \
                     isinstance(st.value, ast.Tuple) and len(st.value.elts) == 2 and isinstance(st.value.elts[0], ast.Name):
-                jbest, jcand = st.targets[0].id, st.value.elts[0].id
-        n_up = best_update_rules(ctx, 'R09.7', js, loops[0], js.params[1], jcand or 'obj', jbest or 'best')
+                jcand = st.value.elts[0].id
+        jinc = Incumbent(loops[0], jcand or 'obj')
+        if jinc.form is None:
+            jinc.form, jinc.name, jinc.value, jinc.sol = 'pair', 'best', 'best[0]', 'best[1]'
+        n_up = best_update_rules(ctx, 'R09.7', js, loops[0], js.params[1], jcand or 'obj', jinc)
         gj = cfg_of(js.node)
-        ups = [n for n in ast.walk(loops[0]) if isinstance(n, ast.Assign) and any(is_name(t, jbest or 'best') for t in n.targets)]
+        ups = [n for n in ast.walk(loops[0]) if jinc.is_update(n)]
         okf = bool(ups)
         for u in ups:
             facts = []
